@@ -197,6 +197,8 @@ def to_real(a):
     if a.kind == "real":
         return a
     if a.kind == "int":
+        if z3.is_int_value(a.t):
+            return SV(z3.RealVal(a.t.as_long()), "real")
         return SV(z3.ToReal(a.t), "real")
     return SV(z3.If(a.t, z3.RealVal(1), z3.RealVal(0)), "real")
 
